@@ -19,6 +19,7 @@ Inductive case :=
 | IdCase (v : Z) (ser : string)
 | HashCase (digest : string) (k : N) (hpoint sig negsig : string)    (* HashToPoint, Sign with a small key, Neg *)
 | MulCase (hpoint : string) (k : Z) (result : string)                 (* G1.ScalarMult(H, k) / Sign *)
+| AddCase (p q result : string)                                       (* G1.Add of two encoded points *)
 | TextSig (honest : string) (text : string) (err ok : bool)           (* Signature.SetHexString + VerifySig *)
 | TextPk (honest : string) (text : string) (err ok : bool)            (* Pubkey.SetHexString + VerifySig *)
 | TextScalar (text : string) (err : bool) (v : Z).                    (* Seckey / ID SetHexString on a fresh value *)
@@ -79,6 +80,11 @@ Definition chk_hash (d : string) (k : N) (hp sg ng : string) : bool :=
 Definition chk_mul (hp : string) (k : Z) (rs : string) : bool :=
   let b := unhex hp in
   bytes_eqb (g1_marshal (g1_scalar_mult k (G1Aff (take32 0 b) (take32 1 b)))) (unhex rs).
+(* bn256 G1.Add (whatever the representation of the operands) against the model's affine law *)
+Definition chk_add (p q rs : string) : bool :=
+  let a := unhex p in let b := unhex q in
+  let dec := fun m => if (take32 0 m =? 0) && (take32 1 m =? 0) then G1Inf else G1Aff (take32 0 m) (take32 1 m) in
+  bytes_eqb (g1_marshal (g1_add (dec a) (dec b))) (unhex rs).
 Definition is_err {A} (r : res A) : bool := match r with Ok _ => false | Err _ => true end.
 Definition chk_scalar (text : string) (err : bool) (v : Z) : bool :=
   match scalar_set_hex text with
@@ -116,6 +122,7 @@ Definition check (c : case) : bool :=
   | IdCase v ser => chk_id v ser
   | HashCase d k hp sg ng => chk_hash d k hp sg ng
   | MulCase hp k rs => chk_mul hp k rs
+  | AddCase p q rs => chk_add p q rs
   | TextSig h text err ok =>
       let hb := unhex h in
       match decode_hex_exact text 64 with
@@ -169,6 +176,7 @@ Definition check_fast (c : case) : bool :=
   | IdCase v ser => chk_id v ser
   | HashCase d k hp sg ng => chk_hash d k hp sg ng
   | MulCase hp k rs => chk_mul hp k rs
+  | AddCase p q rs => chk_add p q rs
   | TextSig h text err ok =>
       let hb := unhex h in
       match decode_hex_exact text 64 with
@@ -232,10 +240,10 @@ Proof.
 Qed.
 
 (* a passing fast check is a passing direct check *)
-Opaque chk_zero chk_alg chk_sk chk_id chk_hash chk_scalar chk_mul.
+Opaque chk_zero chk_alg chk_sk chk_id chk_hash chk_scalar chk_mul chk_add.
 Theorem check_fast_sound c : check_fast c = true -> check c = true.
 Proof.
-  destruct c as [h cd [err nl valid ser ok] | h cd ok | h cd perr ser ok | h sb ok | sk c ok | v ser | v ser | d k hp sg ng | hp k rs | h text err ok | h text err ok | text err v].
+  destruct c as [h cd [err nl valid ser ok] | h cd ok | h cd perr ser ok | h sb ok | sk c ok | v ser | v ser | d k hp sg ng | hp k rs | pa qa rs | h text err ok | h text err ok | text err v].
   - cbn [check_fast check]. set (hb := unhex h). set (b := cand_bytes hb cd).
     intro H. apply andb_true_iff in H as [Hok H]. apply bytes_okb_spec in Hok.
     assert (Hh : bytes_ok hb) by apply unhex_ok.
@@ -255,6 +263,7 @@ Proof.
   - exact (fun H => H).
   - exact (fun H => H).
   - exact (fun H => H).
+  - exact (fun H => H).
   - cbn [check_fast check]. destruct (decode_hex_exact text 64) as [b|] eqn:E; [|exact (fun H => H)].
     destruct (decode_hex_exact_spec _ _ _ E) as (_ & _ & _ & _ & _ & _ & Hok).
     rewrite (sig_verdict_ok b (unhex h) Hok (unhex_ok h)). exact (fun H => H).
@@ -263,4 +272,4 @@ Proof.
     rewrite (pk_verdict_ok b (unhex h) Hok (unhex_ok h)). exact (fun H => H).
   - exact (fun H => H).
 Qed.
-Transparent chk_zero chk_alg chk_sk chk_id chk_hash chk_scalar chk_mul.
+Transparent chk_zero chk_alg chk_sk chk_id chk_hash chk_scalar chk_mul chk_add.
